@@ -36,6 +36,14 @@
 #endif
 #define C19_OB(clause) "C19." C19_T "." clause
 
+/* two pointers into different objects: exact under cbmc, address inequality
+ * in the native replay (VERIF_SAME_OBJECT is constant 1 there) */
+#ifdef VERIF_REPLAY
+#define C19_DISTINCT(a, b) ((const void *)(a) != (const void *)(b))
+#else
+#define C19_DISTINCT(a, b) (!__CPROVER_same_object((a), (b)))
+#endif
+
 /* ------------------------------------------------------------ allocation */
 static int g_oom_enabled;       /* allocations of the code under test may fail */
 static unsigned g_alloc_calls;  /* allocation requests seen */
